@@ -739,8 +739,11 @@ def check_C18(ctx, rt):
         for s in strings_mixed:
             ctx.evaluations += 1
             ctx.distinct.add(s)
-            toks = list(sf.split_selfies(s))
-            mod = "".join(t if t == "." else oracles.modernize(t) for t in toks)       # independent of selfies.compatibility
+            # modernise symbol by symbol, fragment by fragment (split_selfies on the WHOLE string glues the second of
+            # two consecutive dots to the next symbol; the decoder splits at every '.' first)
+            frs = [list(sf.split_selfies(fr)) for fr in s.split(".")]
+            toks = [t for fr in frs for t in fr]
+            mod = ".".join("".join(oracles.modernize(t) for t in fr) for fr in frs)      # independent of selfies.compatibility
             a = impl.real_decoder(s, compat=True)
             b = impl.real_decoder(mod, compat=False)
             if a != b:
